@@ -412,3 +412,32 @@ func upgradeErrClass(err error) string {
 }
 
 func pick(c *ctx, xs ...string) string { return xs[c.rng.Intn(len(xs))] }
+
+// isListHeader: the list-valued headers the handshake scans with httphead.
+func isListHeader(name string) bool {
+	switch strings.ToLower(strings.Trim(name, " \t")) {
+	case "connection", "sec-websocket-protocol", "sec-websocket-extensions":
+		return true
+	}
+	return false
+}
+
+// headTag classifies a message head for known-finding matching: "htlist" when a
+// list-valued header (Connection, Sec-WebSocket-Protocol, Sec-WebSocket-Extensions) has a
+// horizontal tab inside its value (not merely around it).
+func headTag(head []byte) string {
+	for i, line := range bytes.Split(head, []byte("\n")) {
+		line = bytes.TrimSuffix(line, []byte("\r"))
+		if len(line) == 0 && i > 0 {
+			break
+		}
+		c := bytes.IndexByte(line, ':')
+		if c < 0 || !isListHeader(string(line[:c])) {
+			continue
+		}
+		if bytes.IndexByte(bytes.Trim(line[c+1:], " \t"), '\t') >= 0 {
+			return "htlist"
+		}
+	}
+	return "-"
+}
